@@ -212,6 +212,111 @@ func r6HelperCleanup(p *Program, callee *ssa.Function, args []ssa.Value, file, p
 	return mustEvents(callee, tr) & 7
 }
 
+// returnsCellContent: the error result of the return that ends block b is the
+// content of `cell` as the deferred calls see it.
+func returnsCellContent(b *ssa.BasicBlock, cell *ssa.Alloc) bool {
+	ret, ok := b.Instrs[len(b.Instrs)-1].(*ssa.Return)
+	if !ok {
+		return false
+	}
+	idx := errorResultIndex(b.Parent().Signature)
+	if idx < 0 || idx >= len(ret.Results) {
+		return false
+	}
+	u, ok := ret.Results[idx].(*ssa.UnOp)
+	if !ok || u.Op != token.MUL || u.X != ssa.Value(cell) || u.Block() != b {
+		return false
+	}
+	// no store into the cell between the deferred calls and the load / before it after rundefers
+	rd := -1
+	for i, in := range b.Instrs {
+		if _, ok := in.(*ssa.RunDefers); ok {
+			rd = i
+		}
+	}
+	for _, st := range cellStores(cell) {
+		if st.Block() == b && rd >= 0 && instrIndexIn(st) > rd {
+			return false
+		}
+	}
+	return true
+}
+
+// errGuardedClosure: the closure's body is `if *errVar != nil { A } [else { B }]`
+// with errVar a captured error variable of the enclosing function. Returns
+// that variable's cell and the events certain on each side.
+func errGuardedClosure(cl *ssa.Function, tr transferFn) (cell *ssa.Alloc, whenNonNil, whenNil uint64, ok bool) {
+	if len(cl.Blocks) == 0 {
+		return nil, 0, 0, false
+	}
+	entry := cl.Blocks[0]
+	iff, isIf := entry.Instrs[len(entry.Instrs)-1].(*ssa.If)
+	if !isIf {
+		return nil, 0, 0, false
+	}
+	bo, isBO := iff.Cond.(*ssa.BinOp)
+	if !isBO || (bo.Op != token.NEQ && bo.Op != token.EQL) {
+		return nil, 0, 0, false
+	}
+	var other ssa.Value
+	switch {
+	case isNilConst(bo.Y):
+		other = bo.X
+	case isNilConst(bo.X):
+		other = bo.Y
+	default:
+		return nil, 0, 0, false
+	}
+	u, isU := other.(*ssa.UnOp)
+	if !isU || u.Op != token.MUL || !isErrorType(u.Type()) {
+		return nil, 0, 0, false
+	}
+	fv, isFV := u.X.(*ssa.FreeVar)
+	if !isFV {
+		return nil, 0, 0, false
+	}
+	cell = cellOf(fv)
+	if cell == nil {
+		return nil, 0, 0, false
+	}
+	// nothing before the test in the entry block may have an effect
+	for _, in := range entry.Instrs {
+		if _, isCall := in.(ssa.CallInstruction); isCall {
+			return nil, 0, 0, false
+		}
+	}
+	side := func(takeTrueEdge bool) uint64 {
+		pa := newPathAnalysis(cl, tr)
+		pa.edge = func(pred, succ *ssa.BasicBlock, _ uint64) bool {
+			if pred != entry {
+				return true
+			}
+			if takeTrueEdge {
+				return succ == entry.Succs[0]
+			}
+			return succ == entry.Succs[1]
+		}
+		pa.run(0)
+		must := ^uint64(0)
+		any := false
+		for _, ret := range returnsOf(cl) {
+			for _, ev := range pa.statesBefore(ret) {
+				must &= ev
+				any = true
+			}
+		}
+		if !any {
+			return 0
+		}
+		return must
+	}
+	t, f := side(true), side(false)
+	if bo.Op == token.NEQ {
+		return cell, t, f, true
+	}
+	return cell, f, t, true
+}
+
 // role of a completion call in a file-producing function
 type kRole struct {
 	name     string
@@ -309,6 +414,10 @@ func r6ProducerBody(c *RuleCtx, fn *ssa.Function, props []string, name string, a
 		evRemoved = 1 << 1
 		evSync    = 1 << 2
 		roleBase  = 3
+		// the error variable a deferred cleanup is guarded by was assumed
+		// non-nil / nil at this exit (it is what the exit returns)
+		evAssumeNonNil = 1 << 62
+		evAssumeNil    = 1 << 61
 	)
 	// discover completion roles
 	var roles []*kRole
@@ -395,6 +504,7 @@ func r6ProducerBody(c *RuleCtx, fn *ssa.Function, props []string, name string, a
 	}
 
 	var tr transferFn
+	var pa *pathAnalysis
 	closureSummary := map[*ssa.Function]uint64{}
 	tr = func(in ssa.Instruction, ev uint64, deferred bool) []uint64 {
 		cs, ok := in.(ssa.CallInstruction)
@@ -429,6 +539,26 @@ func r6ProducerBody(c *RuleCtx, fn *ssa.Function, props []string, name string, a
 			return []uint64{ev | r.bit}
 		}
 		if callee.Parent() == fn || (callee.Parent() != nil && rootParent(callee) == rootParent(fn)) {
+			// a deferred closure guarded by the function's error variable
+			// (`defer func() { if err != nil { cleanup } }()`): what it does
+			// depends on that variable at this exit
+			if deferred && pa != nil && pa.cur != nil {
+				if cell, whenNonNil, whenNil, ok := errGuardedClosure(callee, tr); ok {
+					switch cellNilnessAt(cell, pa.cur) {
+					case nonNil:
+						return []uint64{ev | whenNonNil}
+					case isNil:
+						return []uint64{ev | whenNil}
+					}
+					if returnsCellContent(pa.cur, cell) {
+						// `return f.Close()` into the named result: the closure
+						// sees exactly what is returned — two worlds, each judged
+						// by the discipline of its kind of exit
+						return []uint64{ev | whenNonNil | evAssumeNonNil, ev | whenNil | evAssumeNil}
+					}
+					return []uint64{ev | (whenNonNil & whenNil)}
+				}
+			}
 			// local closure: apply what its body does on every path
 			s, ok := closureSummary[callee]
 			if !ok {
@@ -449,7 +579,7 @@ func r6ProducerBody(c *RuleCtx, fn *ssa.Function, props []string, name string, a
 		}
 		return nil
 	}
-	pa := newPathAnalysis(fn, tr)
+	pa = newPathAnalysis(fn, tr)
 	if len(delegateSucc) > 0 {
 		// what a delegate has certainly done is known on the edge where its
 		// error was found nil
@@ -533,7 +663,7 @@ func r6ProducerBody(c *RuleCtx, fn *ssa.Function, props []string, name string, a
 		key := name + "/" + exitLabel(ret, labels)
 		pos := c.pos(ret)
 		states := pa.statesBefore(ret)
-		if v != nil && aerr != nil && sameValue(v, aerr) && ns == nonNil {
+		if v != nil && aerr != nil && (sameValue(v, aerr) || sameValue(resolveLoad(v), aerr)) && ns == nonNil {
 			c.okP(props, key, pos, "exit after failed acquisition needs no cleanup")
 			continue
 		}
@@ -552,6 +682,9 @@ func r6ProducerBody(c *RuleCtx, fn *ssa.Function, props []string, name string, a
 		if needFail {
 			okc := true
 			for _, ev := range states {
+				if ev&evAssumeNil != 0 {
+					continue // the world in which this exit returns nil
+				}
 				if ev&evClosed == 0 || ev&evRemoved == 0 {
 					okc = false
 				}
@@ -565,6 +698,9 @@ func r6ProducerBody(c *RuleCtx, fn *ssa.Function, props []string, name string, a
 			okc := true
 			var why []string
 			for _, ev := range states {
+				if ev&evAssumeNonNil != 0 {
+					continue // the world in which this exit returns an error
+				}
 				succMust &= ev
 				if ev&evRemoved != 0 {
 					okc = false
@@ -591,7 +727,7 @@ func r6ProducerBody(c *RuleCtx, fn *ssa.Function, props []string, name string, a
 					}
 					return
 				}
-				if sameValue(ev, v) {
+				if sameValue(ev, v) || sameValue(ev, resolveLoad(v)) {
 					return // this very error is what is returned
 				}
 				if !site.Block().Dominates(ret.Block()) {
